@@ -6,7 +6,9 @@
 
    Events
      Start          Tub.connectTo on a running Tub, or Tub.startService for a queued one: startConnecting(tub)
-     AttemptOk      the Deferred of an outstanding getReference fires with a RemoteReference -> _connected
+     AttemptOk u    the Deferred of an outstanding getReference fires with a RemoteReference -> _connected;
+                    u = what the user's callback does to the Reconnector from inside (stopConnecting / reset,
+                    re-entrantly, at the point where _connected invokes it)
      AttemptFail z  ... fails (any failure type: the code only logs differently) -> _failed; z is the
                     standard-normal draw that random.normalvariate will use
      Lost           a watched connection goes away -> _disconnected
@@ -22,12 +24,23 @@ Import ListNotations.
 Require Import Verif.lib.ReconnectorBase Verif.gen.ReconnectorGen.
 Local Open Scope Q_scope.
 
-Inductive event := Start | AttemptOk | AttemptFail (z : Q) | Lost | TimerExpired | Elapse | Reset | Stop.
+Inductive uop := UStop | UReset.
+
+Inductive event := Start | AttemptOk (u : list uop) | AttemptFail (z : Q) | Lost | TimerExpired | Elapse | Reset | Stop.
+
+(* what a user callback does when it calls back into the Reconnector *)
+Fixpoint uops_act (u : list uop) : act :=
+  match u with
+  | [] => ret
+  | UStop :: r => seq m_stopConnecting (uops_act r)
+  | UReset :: r => seq m_reset (uops_act r)
+  end.
+Definition uop_event (o : uop) : event := match o with UStop => Stop | UReset => Reset end.
 
 Definition enabled (s : st) (e : event) : bool :=
   match e with
   | Start => negb (tub s)
-  | AttemptOk | AttemptFail _ => (0 <? inflight s)%nat
+  | AttemptOk _ | AttemptFail _ => (0 <? inflight s)%nat
   | Lost => (0 <? watching s)%nat
   | TimerExpired | Elapse => timer_truthy s
   | Reset | Stop => true
@@ -46,7 +59,7 @@ Definition halve_timer (s : st) : st :=
 Definition step (s : st) (e : event) : st * list out :=
   match e with
   | Start => m_startConnecting s
-  | AttemptOk => m__connected (dec_inflight s)
+  | AttemptOk u => m__connected (uops_act u) (dec_inflight s)
   | AttemptFail z => m__failed z (dec_inflight s)
   | Lost => m__disconnected (dec_watching s)
   | TimerExpired => m__timer_expired s
@@ -112,7 +125,7 @@ Definition obs (s : st) (o : list out) : Z * list Z * Z * Z :=
 Definition z_at (depth : nat) : Q :=
   nth (depth mod 6) [0; 1 # 2; -(1); 2; -(8); 8]%Q 0%Q.
 Definition alphabet (depth : nat) : list event :=
-  [Start; AttemptOk; AttemptFail (z_at depth); Lost; TimerExpired; Elapse; Reset; Stop].
+  [Start; AttemptOk []; AttemptFail (z_at depth); Lost; TimerExpired; Elapse; Reset; Stop].
 
 (* pre-order enumeration of every permitted sequence of at most n more events *)
 Fixpoint dfs (n depth : nat) (s : st) {struct n} : list (Z * list Z * Z * Z) :=
@@ -145,4 +158,47 @@ Fixpoint first_mismatch (i : Z) (ms ps : list (Z * Z * Z)) {struct ms} : Z * opt
   | m :: mr, p :: pr => if obs_match m p then first_mismatch (i + 1) mr pr else (i, Some m)
   | m :: _, [] => (i, Some m)
   | [], _ :: _ => (i, None)
+  end.
+
+(* histories given as groups of events (what one operation of the harness made the Reconnector do, in the order
+   the entry points were actually invoked); one expected observation per group *)
+Fixpoint run_enabled (s : st) (evs : list event) : option (st * list out) :=
+  match evs with
+  | [] => Some (s, [])
+  | e :: r => if enabled s e
+              then let (s1, o1) := step s e in
+                   match run_enabled s1 r with Some (s2, o2) => Some (s2, o1 ++ o2) | None => None end
+              else None
+  end.
+Fixpoint group_mismatch (i : Z) (s : st) (gs : list (list event * (Z * Z * Z))) : Z * option (Z * Z * Z) :=
+  match gs with
+  | [] => (-1, None)
+  | (evs, p) :: r =>
+      match run_enabled s evs with
+      | None => (i, None)
+      | Some (s', o) => if obs_match (pack_obs (obs s' o)) p then group_mismatch (i + 1) s' r
+                        else (i, Some (pack_obs (obs s' o)))
+      end
+  end.
+
+(* the same for a whole tree of histories (prefixes shared): pre-order index of the first node whose observation
+   differs, with what the model says there; (number of nodes, None) if all agree *)
+Inductive gtree := GNode (evs : list event) (p : Z * Z * Z) (kids : list gtree).
+Fixpoint tree_mismatch (t : gtree) (s : st) (i : Z) {struct t} : Z * option (Z * option (Z * Z * Z)) :=
+  match t with
+  | GNode evs p kids =>
+      match run_enabled s evs with
+      | None => (i, Some (i, None))
+      | Some (s', o) =>
+          if obs_match (pack_obs (obs s' o)) p
+          then (fix go (ks : list gtree) (i : Z) {struct ks} : Z * option (Z * option (Z * Z * Z)) :=
+                  match ks with
+                  | [] => (i, None)
+                  | k :: r => match tree_mismatch k s' i with
+                              | (i', None) => go r i'
+                              | bad => bad
+                              end
+                  end) kids (i + 1)
+          else (i, Some (i, Some (pack_obs (obs s' o))))
+      end
   end.
